@@ -320,14 +320,58 @@ fn check_crash_state(c: &Case, lines: &[Vec<u8>], st: &CrashState, append2: bool
     env.enter();
     let mut cfg2 = c.cfg.clone();
     cfg2.append = append2;
+    // what must hold for the files, after the first record of the restarted run (its first
+    // rotation and cleanup: later rotations push old files out legitimately and would hide what
+    // the first cleanup did to the left-overs of the crash) and at the end
+    let judge_files = |new_lines: &[Vec<u8>], when: &str| -> Result<Vec<String>, Fail> {
+        let (found, names, plain, gz) = read_lines(&env.dir, &cfg2).map_err(|e| Fail {
+            clause: "tail-broken-after-restart",
+            detail: format!("unreadable {when}: {e}"),
+        })?;
+        match_stream(&found, ending, lines, st.acked, inflight, new_lines, may_drop).map_err(|e| Fail {
+            clause: "tail-broken-after-restart",
+            detail: format!("{when}: files {names:?}\n   {e}"),
+        })?;
+        if let Some((k, m)) = c.cfg.rotation.and_then(|r| r.2.limits()) {
+            let kk = if c.cfg.naming().is_some_and(NamingK::direct) { k.max(1) } else { k };
+            // "preserves all earlier records that the cleanup limit permits": of all files known
+            // (those the crash left and those the restarted run added, in age order) the newest
+            // k + m must still exist
+            let logical_after = logical_names(&env.dir, &cfg2);
+            let mut all = logical_before.clone();
+            for n in &logical_after {
+                if !all.contains(n) {
+                    all.push(n.clone());
+                }
+            }
+            let keep = kk + m;
+            let newest: Vec<&String> = all.iter().rev().take(keep).collect();
+            if let Some(lost) = newest.iter().find(|n| !logical_after.contains(n)) {
+                return Err(Fail {
+                    clause: "over-deleted-after-restart",
+                    detail: format!("{when}: limits {k}/{m} permit the newest {keep} files, but {lost} is gone: files before the restart {logical_before:?}, now {names:?}"),
+                });
+            }
+            if plain > kk || gz > m {
+                return Err(Fail {
+                    clause: "limits-after-restart",
+                    detail: format!("{when}: {plain} plain / {gz} compressed files after the cleanup, limits {k}/{m}: {names:?}"),
+                });
+            }
+        }
+        Ok(names)
+    };
     let mut h = Hist::new(&env, cfg2.clone());
     h.tag = 1;
-    for op in [HOp::W(20), HOp::W(20)] {
+    for (oi, op) in [HOp::W(20), HOp::W(20)].into_iter().enumerate() {
         if let Err(e) = h.apply(op) {
             return Err(Fail {
                 clause: "restart-error",
                 detail: format!("{e:?}"),
             });
+        }
+        if oi == 0 {
+            judge_files(&h.accepted, "after the first record of the restarted run")?;
         }
     }
     h.stop();
@@ -341,14 +385,7 @@ fn check_crash_state(c: &Case, lines: &[Vec<u8>], st: &CrashState, append2: bool
             detail: format!("error channel of the restarted logger: {errs:?}"),
         });
     }
-    let (found, names, plain, gz) = read_lines(&env.dir, &cfg2).map_err(|e| Fail {
-        clause: "tail-broken-after-restart",
-        detail: format!("unreadable after restart: {e}"),
-    })?;
-    match_stream(&found, ending, lines, st.acked, inflight, &new_lines, may_drop).map_err(|e| Fail {
-        clause: "tail-broken-after-restart",
-        detail: format!("after the restarted run: files {names:?}\n   {e}"),
-    })?;
+    let names = judge_files(&new_lines, "after the restarted run")?;
     // "with all other guarantees intact": the symlink resolves to the file the restarted logger
     // wrote its last record to
     if c.cfg.symlink {
@@ -363,33 +400,6 @@ fn check_crash_state(c: &Case, lines: &[Vec<u8>], st: &CrashState, append2: bool
                     through_link.map(|b| String::from_utf8_lossy(&b).to_string()),
                     String::from_utf8_lossy(&last)
                 ),
-            });
-        }
-    }
-    if let Some((k, m)) = c.cfg.rotation.and_then(|r| r.2.limits()) {
-        let kk = if c.cfg.naming().is_some_and(NamingK::direct) { k.max(1) } else { k };
-        // "preserves all earlier records that the cleanup limit permits": of all files known
-        // (those the crash left and those the restarted run added, in age order) the newest
-        // k + m must still exist
-        let logical_after = logical_names(&env.dir, &cfg2);
-        let mut all = logical_before.clone();
-        for n in &logical_after {
-            if !all.contains(n) {
-                all.push(n.clone());
-            }
-        }
-        let keep = kk + m;
-        let newest: Vec<&String> = all.iter().rev().take(keep).collect();
-        if let Some(lost) = newest.iter().find(|n| !logical_after.contains(n)) {
-            return Err(Fail {
-                clause: "over-deleted-after-restart",
-                detail: format!("limits {k}/{m} permit the newest {keep} files, but {lost} is gone after the restarted run: files before the restart {logical_before:?}, after {names:?}"),
-            });
-        }
-        if plain > kk || gz > m {
-            return Err(Fail {
-                clause: "limits-after-restart",
-                detail: format!("{plain} plain / {gz} compressed files after the restarted run's cleanup, limits {k}/{m}: {names:?}"),
             });
         }
     }
